@@ -208,3 +208,26 @@ def probes():
         {"op": "compact"},
         {"op": "reopen", "how": "close"}]})
     return P
+
+
+def gen_btree_seq(seed, sid, keylen, n_ops, n_keys, dup=False, observe_every=1, del_ratio=0.3):
+    """Insert/delete sequences for the B-tree driver; with dup=False a key is live at most once."""
+    rng = random.Random(seed)
+    live = []          # (k, p)
+    ops = []
+    p = 0
+    for _ in range(n_ops):
+        r = rng.random()
+        if live and r < del_ratio:
+            k, pp = live.pop(rng.randrange(len(live)))
+            ops.append(["del", k, pp])
+        elif r < del_ratio + 0.03:
+            ops.append(["reopen"])
+        else:
+            k = rng.randint(1, n_keys)
+            if not dup and any(x[0] == k for x in live):
+                continue
+            p += 1
+            live.append((k, p))
+            ops.append(["ins", k, p])
+    return {"id": sid, "keylen": keylen, "keys": list(range(1, n_keys + 1)), "observe_every": observe_every, "ops": ops}
